@@ -216,6 +216,22 @@ var ops = []opDef{
 		_, e := fmt.Sscan(fmt.Sprintf("%d", a.x), a.z)
 		return fmt.Sprint(s, e)
 	}},
+	// Scan of a text with a verb: the value, the error and what is left unread must agree
+	{"ScanText", "z", func(a bargs) any {
+		var rest string
+		n, e := fmt.Sscanf(a.s, scanVerb(a.n)+"%s", a.z, &rest)
+		if n == 0 {
+			a.z.SetInt64(0) // the receiver's value after a failed Scan is unspecified (as for SetString)
+		}
+		return fmt.Sprint(n, e != nil, rest, a.z.String())
+	}, func(a aargs) any {
+		var rest string
+		n, e := fmt.Sscanf(a.s, scanVerb(a.n)+"%s", a.z, &rest)
+		if n == 0 {
+			a.z.SetInt64(0)
+		}
+		return fmt.Sprint(n, e != nil, rest, a.z.String())
+	}},
 	{"FillBytes", "", func(a bargs) any { return fmt.Sprintf("%x", a.x.FillBytes(make([]byte, (a.x.BitLen()+7)/8+int(a.n%3)))) },
 		func(a aargs) any { return fmt.Sprintf("%x", a.x.FillBytes(make([]byte, (a.x.BitLen()+7)/8+int(a.n%3)))) }},
 	{"Cmp", "", func(a bargs) any { return fmt.Sprint(a.x.Cmp(a.y), a.x.CmpAbs(a.y)) }, func(a aargs) any { return fmt.Sprint(a.x.Cmp(a.y), a.x.CmpAbs(a.y)) }},
@@ -247,6 +263,10 @@ var opIndex = func() map[string]int {
 	return m
 }()
 
+var pseudoprimes = []string{"561", "1105", "1729", "2047", "1373653", "9080191", "25326001", "3215031751", "4759123141", "1122004669633", "2152302898747",
+	"3474749660383", "341550071728321", "3825123056546413051", "318665857834031151167461", "3317044064679887385961981",
+	"2305843009213693951", "18446744073709551557", "18446744073709551629", "9223372036854775783", "170141183460469231731687303715884105727", "4294967291", "4294967311"}
+
 func genValue(t *rapid.T, label string) *big.Int {
 	var v *big.Int
 	switch gen.Pick(t, 8, label+"k") {
@@ -264,6 +284,12 @@ func genValue(t *rapid.T, label string) *big.Int {
 		return v // non-negative: Sqrt of a negative panics in both implementations
 	case 0:
 		v = big.NewInt(int64(rapid.IntRange(-3, 3).Draw(t, label+"s")))
+		if gen.Pick(t, 3, label+"psp") == 0 {
+			// composites that fool restricted primality tests (strong pseudoprimes to the first
+			// k prime bases, Carmichael numbers) and primes next to word boundaries: the natural
+			// boundary values of ProbablyPrime
+			v, _ = new(big.Int).SetString(pseudoprimes[gen.Pick(t, len(pseudoprimes), label+"pspk")], 10)
+		}
 	case 1, 2:
 		b := rapid.SampledFrom([]uint{31, 32, 33, 62, 63, 64, 65, 126, 127, 128, 129, 130, 192, 256}).Draw(t, label+"b")
 		v = new(big.Int).Lsh(big.NewInt(1), b)
@@ -319,6 +345,11 @@ func genCase(t *rapid.T) Case {
 			default:
 				s.S = genValue(t, "ustr2").Text(10)
 			}
+		}
+		if s.Op == "ScanText" {
+			num := genValue(t, "scanv").Text([]int{10, 10, 16, 8, 2}[gen.Pick(t, 5, "scanb")])
+			tails := []string{"", "", "+3", "-4", "-", "+", "abc", "_1", ".5", "e3", " 7", "x", "0x1", "++", "/2"}
+			s.S = []string{"", "", "+", "0x", "0b", "0"}[gen.Pick(t, 6, "scanp")] + num + tails[gen.Pick(t, len(tails), "scant")]
 		}
 		if s.Op == "SqrtOf" {
 			// r^2 + d for a root of every bit length up to 66
@@ -567,3 +598,7 @@ func straddles(v *big.Int) bool {
 
 func TestC16(t *testing.T)       { core.Run(t, "C16", genCase, check) }
 func TestC16Replay(t *testing.T) { core.Replay(t, "C16", check) }
+
+func scanVerb(n int64) string {
+	return []string{"%d", "%v", "%x", "%o", "%b", "%s", "%X"}[int(uint64(n)%7)]
+}
